@@ -37,6 +37,8 @@ type Lemma struct {
 	Fuel    int
 	Induct  string // variable to do induction over (optional)
 	File    string
+	Use     bool    // once proved, available to function VCs as a quantified fact
+	Trigger *Expr
 }
 
 type Spec struct {
@@ -278,13 +280,33 @@ func (sp *Spec) addStatement(st, file string) error {
 		}
 		fs := strings.Fields(hf)
 		l.Name = fs[0]
-		for i := 1; i+1 < len(fs); i += 2 {
+		for i := 1; i < len(fs); i++ {
 			switch fs[i] {
 			case "fuel":
-				fmt.Sscan(fs[i+1], &l.Fuel)
+				if i+1 < len(fs) {
+					fmt.Sscan(fs[i+1], &l.Fuel)
+					i++
+				}
 			case "induct":
-				l.Induct = fs[i+1]
+				if i+1 < len(fs) {
+					l.Induct = fs[i+1]
+					i++
+				}
+			case "use":
+				l.Use = true
 			}
+		}
+		if tb := strings.TrimSpace(body); strings.HasPrefix(tb, "trigger ") {
+			tr, rest, ok := strings.Cut(tb[len("trigger "):], ";;")
+			if !ok {
+				return fmt.Errorf("lemma 'trigger' must end with ';;'")
+			}
+			te, err := ParseExpr(tr)
+			if err != nil {
+				return err
+			}
+			l.Trigger = te
+			body = rest
 		}
 		if strings.HasPrefix(strings.TrimSpace(body), "assuming ") {
 			hs, b2, ok := strings.Cut(strings.TrimSpace(body)[len("assuming "):], "|-")
@@ -390,7 +412,7 @@ func (cx *Ctx) unfoldRecDefs(terms []*Term, fuel int) ([]*Term, error) {
 				vars[p.Name] = arg
 			}
 			cx.inTree++
-			env := &Env{cx: cx, st: cx.treeFor(epoch), old: nil, vars: vars, epoch: epoch}
+			env := &Env{cx: cx, st: cx.treeFor(epoch), old: nil, vars: vars, epochSt: cx.treeFor(epoch)}
 			body, err := env.Eval(rd.Body)
 			cx.inTree--
 			if err != nil {
@@ -426,7 +448,7 @@ func (cx *Ctx) collectApps(t *Term, bound map[string]bool, seen map[string]bool,
 		cx.collectApps(a, bound, seen, out)
 	}
 	base, _ := epochOf(t.Op)
-	if _, ok := cx.spec.recdefs[base]; ok && len(t.Args) > 0 && (cx.unfoldOnly == nil || cx.unfoldOnly[base]) {
+	if _, ok := cx.spec.recdefs[base]; ok && !bound[t.Op] && (cx.unfoldOnly == nil || cx.unfoldOnly[base]) {
 		if len(bound) > 0 {
 			syms := map[string]bool{}
 			collectSyms(t, map[string]bool{}, syms)
